@@ -97,7 +97,7 @@ RegTimer ==
 CancelSock ==
   /\ IsEvent("cancel_sock") /\ CtxOK /\ Ev.fd \in FDS
   /\ LET k == <<Ev.fd, Ev.dir>> IN
-     IF slot[k] = 0 THEN Ev.rc = -1 /\ Ev.enoent /\ UNCHANGED <<status, slot>>
+     IF slot[k] = 0 THEN Ev.rc = -1 /\ (Ev.enoent \/ Ev.inj > 0) /\ UNCHANGED <<status, slot>>     \* (first use of the module may itself need memory)
      ELSE /\ Ev.rc = 0                                    \* cancels cannot fail, whatever the allocator does
           /\ status' = [status EXCEPT ![slot[k]] = "cancelled"] /\ slot' = [slot EXCEPT ![k] = 0]
   /\ UNCHANGED <<info, imm, polled, errhup, kready, clock, intr>> /\ UNCHANGED RunVars
